@@ -1576,6 +1576,109 @@ def r8_entries_located_on_mask(ctx, rid):
                label="weight entries located on the non-zero mask")
 
 
+# ------------------------------------------------------------------------------------------------
+# R9 a connection is skipped only when it has no non-zero weight at all (exact test)
+# ------------------------------------------------------------------------------------------------
+
+def _zero_test_kind(t, pol, is_w):
+    """'exact' / 'tolerance' / None for one literal (t holds with polarity pol) about a weights expression (is_w(expr) -> bool)"""
+    def about(e):
+        # the weights' VALUES: uses through .ndim / .shape / .size / .dtype say nothing about them
+        for x in ast.walk(e):
+            if is_w(x) and not (isinstance(getattr(x, "_parent", None), ast.Attribute) and x._parent.attr in ("ndim", "shape", "size", "dtype")):
+                return True
+        return False
+    if not about(t):
+        return None
+    cn = call_name(t) if isinstance(t, ast.Call) else None
+    zero_arg = isinstance(t, ast.Call) and any(isinstance(a, ast.Constant) and a.value == 0 for a in t.args)
+    if cn == "allclose" and pol and zero_arg:
+        return "tolerance"
+    if cn in ("all", "any") and t.args is not None:
+        inner = t.args[0] if t.args else (t.func.value if isinstance(t.func, ast.Attribute) else None)
+        if isinstance(t.func, ast.Attribute) and not t.args and not (isinstance(t.func.value, ast.Name) and t.func.value.id in R.MODULE_ALIASES):
+            inner = t.func.value
+        if inner is not None:
+            if isinstance(inner, ast.Call) and call_name(inner) == "isclose":
+                return "tolerance" if (cn == "all") == pol else None
+            if isinstance(inner, ast.Compare) and len(inner.ops) == 1:
+                op = inner.ops[0]
+                zero = any(isinstance(x, ast.Constant) and x.value == 0 for x in (inner.left, inner.comparators[0]))
+                if isinstance(op, (ast.Eq, ast.NotEq)) and zero:
+                    return "exact" if ((cn == "all") == isinstance(op, ast.Eq)) == pol else None     # all(w == 0) / not any(w != 0)
+                if isinstance(op, (ast.Lt, ast.LtE, ast.Gt, ast.GtE)):
+                    return "tolerance"                                                       # all(abs(w) < eps)
+            if cn == "any" and not pol and is_w(inner):
+                return "exact"                                                               # not np.any(w)
+    if isinstance(t, ast.Compare) and len(t.ops) == 1:
+        l, op, r = t.left, t.ops[0], t.comparators[0]
+        if isinstance(l, ast.Call) and call_name(l) == "count_nonzero" and isinstance(r, ast.Constant) and r.value == 0:
+            return "exact" if isinstance(op, ast.Eq) == pol else None
+        if isinstance(op, (ast.Lt, ast.LtE, ast.Gt, ast.GtE)) and any(isinstance(x, ast.Call) and call_name(x) in ("abs", "absolute", "max", "norm", "sum")
+                                                                        for x in ast.walk(t)):
+            return "tolerance"                                                               # abs(w).max() < eps, norm(w) < eps
+    return "unknown"
+
+
+def r9_connections_skipped_only_when_empty(ctx, rid):
+    """Every Connectivity with a non-zero weight is an edge set of the explicit network, however small the weights.  A loop over
+    self.connections may therefore skip a connection (`continue`) only under an EXACT emptiness test of its weights (not np.any(w),
+    count_nonzero(w) == 0, all(w == 0)); a tolerance test (np.allclose(w, 0) with its default atol=1e-8, isclose, abs(w) < eps) drops
+    weak but real connections - the population circuit then lacks edges the explicit network has."""
+    cls = ctx.repo.get_class(FE, "CircuitTemplate")
+    n_guards = 0
+    scanned = 0
+    for m in cls.methods.values():
+        selfn = m.self_name or ""
+        fv = m                                  # each method on its own (a view would show a spliced loop twice)
+        loops = [l for l in walk_shallow(fv.node) if isinstance(l, ast.For) and any(is_attr_of(x, selfn, "connections") for x in ast.walk(l.iter))]
+        if not loops:
+            continue
+        scanned += 1
+        roles = Roles(ctx, fv)
+        cfg = ctx.cfg(fv)
+
+        def is_w(e):
+            return isinstance(e, (ast.Name, ast.Attribute, ast.Subscript)) and roles.atom(e) == WGT
+        for loop in loops:
+            for st in walk_shallow(loop):
+                if not (isinstance(st, ast.Continue) and in_loop_body(loop, st)):
+                    continue
+                if any(isinstance(a, (ast.For, ast.While)) and a is not loop and contains(loop, a) for a in _ancestors(st)):
+                    continue
+                # the tests that decide this `continue`: the if-statements of the loop body it is nested in
+                lits = []
+                child = st
+                for a in _ancestors(st):
+                    if a is loop:
+                        break
+                    if isinstance(a, ast.If):
+                        R.split_literals(a.test, any(contains(b, child) for b in a.body), lits)
+                    child = a
+                kinds = [(t, pol, _zero_test_kind(t, pol, is_w)) for t, pol in lits]
+                kinds = [k for k in kinds if k[2] is not None]
+                if not kinds:
+                    continue
+                n_guards += 1
+                label = _uniq(ctx, rid, fv, f"connection skipped: {' and '.join(('' if p else 'not ') + norm(t)[:50] for t, p, _ in kinds)}")
+                tol = [k for k in kinds if k[2] == "tolerance"]
+                if tol:
+                    t, pol, _ = tol[0]
+                    ctx.violation(rid, fv, st, f"a connection is skipped when `{('' if pol else 'not ') + norm(t)}` holds - a zero test with a tolerance: a "
+                                               f"connection whose weights are all small (e.g. 1e-9) but non-zero is dropped, although the explicit "
+                                               f"network has these edges; test exactly (not np.any(w))", label=label)
+                elif all(k[2] == "exact" for k in kinds):
+                    ctx.ok(rid, fv, st, "a connection is skipped only when it has no non-zero weight (exact test)", label=label)
+                else:
+                    raise AnalysisError(f"{rid}: cannot classify the test under which {fv.qual} skips a connection: "
+                                        f"{[norm(t) for t, _, k in kinds if k == 'unknown']}")
+    if scanned == 0:
+        raise AnalysisError(f"{rid}: no method of CircuitTemplate loops over self.connections (anchor vanished)")
+    if n_guards == 0:
+        ctx.ok(rid, None, None, f"no loop over self.connections ({scanned} method(s)) skips a connection on account of its weights",
+               construct=f"{FE}::CircuitTemplate::connections skipped only when empty", loc=f"{FE}:1", nontrivial=False)
+
+
 RULES = [
     ("C16-R1", r1_index_roles, 30),
     ("C16-R2", r2_coupling_helpers, 14),
@@ -1585,4 +1688,5 @@ RULES = [
     ("C16-R6", r6_no_state_carried_between_connections, 1),
     ("C16-R7", r7_emitted_terms_are_summed, 3),
     ("C16-R8", r8_entries_located_on_mask, 1),
+    ("C16-R9", r9_connections_skipped_only_when_empty, 1),
 ]
